@@ -172,9 +172,24 @@ Definition ev_ok (P : nat) (past : list event) (e : event) : bool :=
       snap_ok past sn
   end.
 
+(** The part of the OnEnd clause that does not look into the snapshot. *)
+Definition onend_base (P : nat) (past : list event) (p : nat) (sn : snap) : bool :=
+  (p <? P) && negb (existsb (is_onend_of p) past) && has_end_call past &&
+  forallb (fun e' => match e' with EvOnEnd _ sn' => snap_eqb sn' sn | _ => true end) past.
+
 (** Prop reading: the clause holds at every position of the history. *)
 Definition Spec (P : nat) (h : list event) : Prop :=
   forall past e fut, h = past ++ e :: fut -> ev_ok P past e = true.
+
+(** The limit-independent part of the clauses (what holds of a span whatever its limits): everything about
+    calls and returns, and for a delivery everything but the content of the parts. *)
+Definition ev_w (P : nat) (past : list event) (e : event) : bool :=
+  match e with
+  | EvOnEnd p sn => onend_base P past p sn && children_ok past sn && (0 <? sn_et sn)
+  | _ => ev_ok P past e
+  end.
+Definition SpecW (P : nat) (h : list event) : Prop :=
+  forall past e fut, h = past ++ e :: fut -> ev_w P past e = true.
 
 (** Completed histories (every call returned): if End was invoked, every
     processor received the span. *)
@@ -278,8 +293,8 @@ Definition ev_lim_ok (lims : limits) (P : nat) (past : list (event * dropped)) (
   let pe := map fst past in
   match e with
   | EvOnEnd p sn =>
-      (p <? P) && negb (existsb (is_onend_of p) pe) && has_end_call pe &&
-      forallb (fun x => match fst x with EvOnEnd _ sn' => snap_eqb sn' sn && dropped_eqb (snd x) d | _ => true end) past &&
+      onend_base P pe p sn &&
+      forallb (fun x => match fst x with EvOnEnd _ _ => dropped_eqb (snd x) d | _ => true end) past &&
       snap_lim_ok lims d pe sn
   | _ => ev_ok P pe e
   end.
